@@ -42,7 +42,11 @@
         lies below a selected call (C16_nested_guarded), otherwise see C16_nested_refuted;
       * the lower bound excludes limit-readline (replaces the whole list by design) and the pinned harden-pyyaml.
     The theorems without the suffix (replace_args frame/multiset, jwt options dict, idempotence, the guarded and refuted
-    statements) are full-strength statements about the kernel functions they name. *)
+    statements) are full-strength statements about the kernel functions they name. 
+    Added later (positional_to_keyword, used by replace-flask-send-file): C16_p2k_frame (table-indexed on the shape of
+    utils.positional_to_keyword: raises on a starred argument / carries it and the rest over), C16_p2k_carries_after_star,
+    C16_p2k_as_written_agrees, C16_p2k_example; the documented edit is the carry-over reading, a raise leaves the file
+    untouched (allowed by the property). *)
 From CM Require Import Model.Args Spec.ArgsSpec Proofs.ArgsFacts Generated.Tables.
 From CM Require Import Model.JwtOpts Spec.JwtOptsSpec Proofs.JwtOptsFacts.
 From Coq Require Import Lia.
